@@ -8,6 +8,9 @@ package operations
 //@ define opsIdle(o ref) bool = !driveHeld && !mutexHeld[addr(o.diskOperationLock)]
 
 //@ func (*Operations).Delete
+//@   property C02
+//@   ghostset opDeletes := old(opDeletes) + 1
+//@   ensures [counted] opDeletes == old(opDeletes) + 1
 //@   property C05
 //@   ensures [trailer-on-success] err == nil && hdrWrites > old(hdrWrites) ==> trailers > old(trailers)
 //@   property C09
@@ -15,11 +18,14 @@ package operations
 //@   property C10
 //@   safety C10
 //@   requires o != nil && opsReady(o) && opsIdle(o)
-//@   modifies *, driveHeld, mutexHeld[addr(o.diskOperationLock)], tapeWrites, indexWrites, ghosts(C04), ghosts(C08), ghosts(C09), ghosts(C05), ghosts(C14), ghosts(C07)
+//@   modifies *, driveHeld, mutexHeld[addr(o.diskOperationLock)], tapeWrites, indexWrites, ghosts(C04), ghosts(C08), ghosts(C09), ghosts(C05), ghosts(C14), ghosts(C07), opDeletes
 //@   ensures [drive-free] !driveHeld
 //@   ensures [ops-free] !mutexHeld[addr(o.diskOperationLock)]
 
 //@ func (*Operations).Move
+//@   property C02
+//@   ghostset opMoves := old(opMoves) + 1
+//@   ensures [counted] opMoves == old(opMoves) + 1
 //@   property C05
 //@   ensures [trailer-on-success] err == nil && hdrWrites > old(hdrWrites) ==> trailers > old(trailers)
 //@   property C09
@@ -27,7 +33,7 @@ package operations
 //@   property C10
 //@   safety C10
 //@   requires o != nil && opsReady(o) && opsIdle(o)
-//@   modifies *, driveHeld, mutexHeld[addr(o.diskOperationLock)], tapeWrites, indexWrites, ghosts(C04), ghosts(C08), ghosts(C09), ghosts(C05), ghosts(C14), ghosts(C07)
+//@   modifies *, driveHeld, mutexHeld[addr(o.diskOperationLock)], tapeWrites, indexWrites, ghosts(C04), ghosts(C08), ghosts(C09), ghosts(C05), ghosts(C14), ghosts(C07), opMoves
 //@   ensures [drive-free] !driveHeld
 //@   ensures [ops-free] !mutexHeld[addr(o.diskOperationLock)]
 
